@@ -50,6 +50,7 @@ func init() {
 			{"R11.1", "not-found edge of the trimming loops", ruleSearchLoopNotFound},
 			{"R11.2", "variable results are always trimmed; limit after range", ruleTrimOrder},
 			{"R11.3", "year files are selected by calendar year (no fixed-length year)", ruleNoFixedLengthYear},
+			{"R11.4", "query bounds are never converted to nanosecond counts", ruleBoundsNotAsUnixNano},
 		},
 	})
 	register(&Property{
